@@ -1,10 +1,163 @@
-(* C14 -- MPI-striped clustering and reductions equal their serial counterparts (model: Model/Mpi.v). *)
+(* C14 -- MPI-striped clustering and reductions equal their serial counterparts.
+   Property theorems only; model: Model/Mpi.v (over Model/Cluster.v); proofs: Proof/MpiBase.v, MpiIndex.v,
+   MpiKc.v, MpiProofs.v.  World size P >= 1 arbitrary, trajectory t on rank t mod P, any length vector.
+   Collectives are functions of the vector of per-rank contributions (MPI semantics, trusted), so a single
+   model execution covers every arrival order of the ranks. *)
 From Coq Require Import List ZArith QArith Permutation.
-From EV Require Import Cluster Mpi MpiBase.
+From EV Require Import Cluster Mpi MpiBase MpiIndex MpiKc MpiProofs MpiPam.
 Import ListNotations.
 
-(* striped keys: ranks load keys r, r+P, ...; together exactly all keys, each once *)
+(* ---- striped file loading: ranks load keys r, r+P, ...; together exactly all keys, each once *)
 Theorem c14_striped_keys_partition : forall {A} P (keys : list A), (1 <= P)%nat ->
   Permutation (concat (map (fun r => keys_of P r keys) (seq 0 P))) keys.
 Proof. exact (fun A => @stripes_perm A). Qed.
 Print Assumptions c14_striped_keys_partition.
+
+(* ---- the local arrays hold every frame of the global array exactly once *)
+Theorem c14_scatter_partition : forall {A} P lens (g : list A), (1 <= P)%nat -> length g = sum_nat lens ->
+  Permutation (concat (scatter P lens g)) g.
+Proof. exact (fun A => @scatter_perm A). Qed.
+Print Assumptions c14_scatter_partition.
+
+(* ---- striped gathers: assemble_striped_ragged_array of the local pieces is the global array
+        (every rank owns >= 1 trajectory, as the code requires) *)
+Theorem c14_assemble_split : forall {A} (fill : A) P lens (g : list A),
+  (1 <= P)%nat -> (P <= length lens)%nat -> length g = sum_nat lens ->
+  assemble fill P lens (scatter P lens g) = Some g.
+Proof. exact (fun A => @assemble_split A). Qed.
+Print Assumptions c14_assemble_split.
+
+(* ---- local-to-global index conversion: ctr_ids_mpi and convert_local_indices are mutually inverse and
+        land in range, for every world size and every length vector (stripe_bijection) *)
+Theorem c14_global_to_local_then_back : forall P lens g ri, (1 <= P)%nat ->
+  ctr_ids_mpi P lens g = Some ri -> convert_local P lens ri = Some g /\ (fst ri < P)%nat.
+Proof. exact ctr_ids_mpi_convert. Qed.
+Print Assumptions c14_global_to_local_then_back.
+
+Theorem c14_global_to_local_total : forall P lens g, (1 <= P)%nat -> (g < sum_nat lens)%nat ->
+  exists ri, ctr_ids_mpi P lens g = Some ri.
+Proof. exact ctr_ids_mpi_total. Qed.
+Print Assumptions c14_global_to_local_total.
+
+Theorem c14_local_to_global_then_back : forall P lens r i g, (1 <= P)%nat -> (r < P)%nat ->
+  convert_local P lens (r, i) = Some g -> ctr_ids_mpi P lens g = Some (r, i).
+Proof. exact convert_ctr_ids. Qed.
+Print Assumptions c14_local_to_global_then_back.
+
+Theorem c14_local_to_global_in_range : forall P lens r i g, (1 <= P)%nat -> (r < P)%nat ->
+  convert_local P lens (r, i) = Some g -> (g < sum_nat lens)%nat.
+Proof. exact convert_local_range. Qed.
+Print Assumptions c14_local_to_global_in_range.
+
+(* ---- random element choice: the broadcast draw g in [0, total) is mapped bijectively onto the valid
+        (owner rank, local index) pairs, so a uniform draw is a uniform element (randind_bijection) *)
+Theorem c14_randind_total : forall ns g, (g < sum_nat ns)%nat ->
+  exists r i, randind ns g = Some (r, i) /\ (r < length ns)%nat /\ (i < nth r ns 0)%nat.
+Proof. exact randind_total. Qed.
+Print Assumptions c14_randind_total.
+
+Theorem c14_randind_injective : forall ns g g' ri, randind ns g = Some ri -> randind ns g' = Some ri -> g = g'.
+Proof. exact randind_inj. Qed.
+Print Assumptions c14_randind_injective.
+
+Theorem c14_randind_surjective : forall ns r i, (r < length ns)%nat -> (i < nth r ns 0)%nat ->
+  exists g, (g < sum_nat ns)%nat /\ randind ns g = Some (r, i).
+Proof. exact randind_surj. Qed.
+Print Assumptions c14_randind_surjective.
+
+(* ---- striped maximum: allreduce(MAX) of the local maxima equals the serial maximum (ties or not) *)
+Theorem c14_striped_max : forall P lens (g : list fr), (1 <= P)%nat -> length g = sum_nat lens ->
+  Forall (fun loc => loc <> []) (scatter P lens g) ->
+  exists v, striped_max (map (map dist) (scatter P lens g)) = Some v /\ v == maxdist g.
+Proof. exact striped_max_scatter. Qed.
+Print Assumptions c14_striped_max.
+
+(* ---- striped mean: sum of local sums / sum of local lengths is the mean of the whole array, exactly *)
+Theorem c14_striped_mean_exact : forall P lens g, (1 <= P)%nat -> length g = sum_nat lens ->
+  striped_mean (scatter P lens g) == mean g.
+Proof. exact striped_mean_exact. Qed.
+Print Assumptions c14_striped_mean_exact.
+
+(* ---- distributed k-centers, one iteration: when the farthest frame m of the global state is unique,
+        the gathered local maxima elect its owner, the owner's local argmax is m, and the new distributed
+        state is the scatter of the serial iteration's state *)
+Theorem c14_kc_iter_mpi_refines : forall D P lens, (1 <= P)%nat -> forall ti cp cids g m,
+  length g = sum_nat lens -> nonempty_locals P lens g -> length cp = length cids -> umax m g ->
+  exists owner index,
+    (owner < P)%nat /\ nth_error (local_of P owner lens g) index = Some m /\
+    kc_iter_mpi D ti (mkds cp cids (scatter P lens g)) =
+      Some (mkds (cp ++ [(owner, index)]) (fst (kc_iter D ti (cids, g)))
+                 (scatter P lens (snd (kc_iter D ti (cids, g))))).
+Proof. exact kc_iter_mpi_refines. Qed.
+Print Assumptions c14_kc_iter_mpi_refines.
+
+(* ---- the whole loop from any consistent state (same stopping point: the guard uses striped_max) *)
+Theorem c14_kc_loop_mpi_refines : forall D P lens, (1 <= P)%nat -> forall fuel nclu cutoff ti s cp,
+  fids_ok lens (snd s) -> nonempty_locals P lens (snd s) -> ctrs_ok P lens cp (fst s) ->
+  tie_free_run D fuel nclu cutoff ti s ->
+  exists cp',
+    kc_loop_mpi D fuel nclu cutoff ti (mkds cp (fst s) (scatter P lens (snd s))) =
+      Some (mkds cp' (fst (kc_loop D fuel nclu cutoff ti s)) (scatter P lens (snd (kc_loop D fuel nclu cutoff ti s)))) /\
+    ctrs_ok P lens cp' (fst (kc_loop D fuel nclu cutoff ti s)).
+Proof. exact kc_loop_mpi_refines. Qed.
+Print Assumptions c14_kc_loop_mpi_refines.
+
+(* ---- kc_mpi_refines_serial: distributed k-centers followed by the reassembly routines yields the same
+        centres (as global frame indices), labels and distances as the serial algorithm, for tie-free data,
+        every world size P <= number of trajectories, every length vector with non-empty trajectories *)
+Theorem c14_kc_mpi_equals_serial : forall D P lens nclu cutoff ti L rest,
+  (1 <= P)%nat -> (P <= length lens)%nat -> lens = L :: rest -> (1 <= L)%nat ->
+  nonempty_locals P lens (seq 0 (sum_nat lens)) ->
+  tie_free_run D (S (sum_nat lens)) nclu cutoff ti (kc_first D (sum_nat lens)) ->
+  exists ds, kcenters_mpi D P lens nclu cutoff ti = Some ds /\
+    let s' := kcenters_cold D nclu cutoff ti (sum_nat lens) in
+    map (convert_local P lens) (dctr ds) = map Some (fst s') /\
+    assemble 0%nat P lens (map (map lab) (dloc ds)) = Some (labels s') /\
+    assemble 0%Q P lens (map (map dist) (dloc ds)) = Some (dists s').
+Proof. exact kc_mpi_assembled_equals_serial. Qed.
+Print Assumptions c14_kc_mpi_equals_serial.
+
+(* ---- distributed k-medoids stage: one PAM proposal (r, i) under MPI -- the frame Bcast from its owner,
+        the per-frame three-way reassignment on every rank, the striped mean-square cost and the accept test --
+        is exactly the serial PAM step on the proposal's global frame; hence every invariant of the serial
+        stage (C01, C09) carries over to the reassembled distributed state (no tie-freeness needed) *)
+Theorem c14_pam_update_mpi_refines : forall D P lens, (1 <= P)%nat -> forall cp cids g cid r i m,
+  length g = sum_nat lens -> (0 < length g)%nat -> (r < P)%nat ->
+  nth_error (local_of P r lens g) i = Some m ->
+  let s' := pam_update D (cids, g) cid (fid m) in
+  let accept := Qlt_b (sumsq (map (pam_frame D cid (fid m) (replace_nth cid (fid m) cids)) g)) (sumsq g) in
+  pam_update_mpi D (mkds cp cids (scatter P lens g)) cid (r, i) =
+    Some (mkds (if accept then replace_nth cid (r, i) cp else cp) (fst s') (scatter P lens (snd s'))).
+Proof. exact pam_update_mpi_refines. Qed.
+Print Assumptions c14_pam_update_mpi_refines.
+
+Theorem c14_pam_update_mpi_centres : forall P lens cp cids g cid r i m,
+  fids_ok lens g -> ctrs_ok P lens cp cids ->
+  nth_error (local_of P r lens g) i = Some m ->
+  ctrs_ok P lens (replace_nth cid (r, i) cp) (replace_nth cid (fid m) cids).
+Proof. exact pam_update_mpi_ctrs_ok. Qed.
+Print Assumptions c14_pam_update_mpi_centres.
+
+(* ---- the hypotheses are satisfiable: 3 frames at 0, 10, 3 on a line, trajectories of lengths 2 and 1 on
+        2 ranks, k = 2: the run is tie-free, every rank owns a frame, and both runs give centres [0;1] *)
+Definition exM : list (list Q) := [[0; 10#1; 3#1]; [10#1; 0; 7#1]; [3#1; 7#1; 0]].
+
+Example c14_example_hypotheses :
+  nonempty_locals 2 [2%nat; 1%nat] (seq 0 3) /\
+  tie_free_run (Dm exM) 4 (Some 2%nat) 0 false (kc_first (Dm exM) 3).
+Proof.
+  split.
+  - unfold nonempty_locals. vm_compute. repeat constructor; discriminate.
+  - vm_compute. split; [|exact I].
+    exists (mkfr 1 0 (10#1)), [mkfr 0 0 0], [mkfr 2 0 (3#1)]. split; [reflexivity|].
+    repeat constructor.
+Qed.
+Print Assumptions c14_example_hypotheses.
+
+Example c14_example_run :
+  option_map (fun ds => (dctr ds, map (map lab) (dloc ds))) (kcenters_mpi (Dm exM) 2 [2%nat; 1%nat] (Some 2%nat) 0 false)
+    = Some ([(0%nat, 0%nat); (0%nat, 1%nat)], [[0%nat; 1%nat]; [0%nat]]) /\
+  fst (kcenters_cold (Dm exM) (Some 2%nat) 0 false 3) = [0%nat; 1%nat] /\
+  map (convert_local 2 [2%nat; 1%nat]) [(0%nat, 0%nat); (0%nat, 1%nat)] = [Some 0%nat; Some 1%nat].
+Proof. vm_compute. repeat split. Qed.
+Print Assumptions c14_example_run.
